@@ -288,7 +288,7 @@ _LEN_FNS = {
     "core::slice::<impl [T]>::len", "alloc::vec::Vec::<T, A>::len",
 }
 _PASS_THROUGH = {  # receiver-preserving views: the byte content / length is that of the receiver
-    "as_bytes", "as_ref", "as_str", "deref", "borrow", "as_slice", "iter", "clone", "to_vec", "as_deref",
+    "as_bytes", "as_ref", "as_str", "deref", "borrow", "as_slice", "iter", "clone", "to_vec", "as_deref", "into_iter",
 }
 _WRITE_ALL = ("std::io::Write::write_all",)
 
@@ -357,6 +357,16 @@ class Interp:
             return
         if k == "Or":
             return self.bind(fr, pat["pats"][0], val)
+        if k in ("Array", "Slice") and not pat.get("slice"):
+            subs = list(pat.get("prefix", [])) + list(pat.get("suffix", []))
+            for i, q in enumerate(subs):
+                if isinstance(val, TupleVal) and i < len(val.items):
+                    self.bind(fr, q, val.items[i])
+                elif isinstance(val, PathVal):
+                    self.bind(fr, q, PathVal(val.path + (str(i),)))
+                else:
+                    self.bind(fr, q, Opaque("array element"))
+            return
         raise Unsupported("pattern %s" % k)
 
     def project(self, val, name, idx=None):
@@ -488,11 +498,6 @@ class Interp:
     def e_Tuple(self, fr, e):
         return TupleVal([self.eval(fr, x) for x in e["items"]])
 
-    def e_Array(self, fr, e):
-        for x in e["items"]:
-            self.eval(fr, x)
-        return Opaque("array")
-
     def e_Cast(self, fr, e):
         v = self.eval(fr, e["e"])
         if isinstance(v, (Poly, int)) and not isinstance(v, bool):
@@ -508,6 +513,8 @@ class Interp:
         adt = e["adt"]
         if adt == "core::option::Option" and e["variant"] == "None":
             return ("none",)
+        if adt == "core::option::Option" and e["variant"] == "Some" and e["fields"]:
+            return ("some", self.eval(fr, e["fields"][0]["e"]))
         a = self.F.adts.get(adt)
         if a is not None and a["kind"] == "enum" and not e["fields"]:
             return ("variant", e["variant"], adt)
@@ -579,6 +586,10 @@ class Interp:
                 continue
             if s["k"] == "Let":
                 init = self.eval(fr, s["init"]) if s.get("init") else Opaque("uninit")
+                if isinstance(init, tuple) and init and init[0] == "checked" and s["pat"].get("k") == "Variant" and s["pat"].get("variant") == "Some":
+                    # `let Some(rest) = a.checked_sub(b) else { refuse }`: on the accepting path rest = a - b
+                    self.bind(fr, s["pat"]["subs"][0]["pat"], init[1])
+                    continue
                 self.bind(fr, s["pat"], init)
             else:
                 self.eval(fr, s["e"])
@@ -671,6 +682,24 @@ class Interp:
                 tot = tot + i
             # or-patterns binding the same names to the payload of different variants
             return tot, (lambda: self.bind_or(fr, p, scrut))
+        if k == "Variant" and p.get("adt") == "core::option::Option" and not isinstance(scrut, PathVal):
+            cases = self.opt_cases(scrut)
+            if cases is not None:
+                want_some = p["variant"] == "Some"
+                ind = Poly()
+                payloads = []
+                for i, v in cases:
+                    is_some = isinstance(v, tuple) and v and v[0] == "some"
+                    if is_some == want_some:
+                        ind = ind + i
+                        if is_some:
+                            payloads.append((i, v[1]))
+
+                def bind_payload():
+                    if want_some and p.get("subs"):
+                        val = payloads[0][1] if len(payloads) == 1 else (Cases(payloads) if payloads else Opaque("no payload"))
+                        self.bind(fr, p["subs"][0]["pat"], val)
+                return ind, bind_payload
         if k == "Variant" and not isinstance(scrut, PathVal):
             # a computed enum value: the constant / case split produced by inlining a helper such as `self.body_kind()`
             def ind_of(v):
@@ -711,6 +740,20 @@ class Interp:
             return tot, (lambda: [bb() for bb in binders])
         raise Unsupported("pattern kind %s in match" % k)
 
+    def opt_cases(self, v):
+        """[(indicator, ("none",) | ("some", payload))] for a computed Option value, None if it is not one."""
+        if isinstance(v, tuple) and v and v[0] in ("none", "some"):
+            return [(Poly.const(1), v)]
+        if isinstance(v, Cases):
+            out = []
+            for i, x in v.pairs:
+                sub = self.opt_cases(x)
+                if sub is None:
+                    return None
+                out += [(i * j, y) for j, y in sub]
+            return out
+        return None
+
     def bind_or(self, fr, p, scrut):
         # bind through the first alternative; payload paths are per-variant, so mark them generically
         first = p["pats"][0]
@@ -740,13 +783,27 @@ class Interp:
 
     def e_For(self, fr, e):
         it = self.eval(fr, e["iter"])
+        elem = PathVal(("$it",))
+        if isinstance(it, tuple) and it and it[0] == "mapped" and isinstance(it[1], PathVal):
+            # `for x in path.iter().map(f)`: one iteration per element of path; x is f(element)
+            try:
+                elem = self.apply_fn(fr, it[2], [PathVal(("$it",))])
+            except Unsupported:
+                elem = Opaque("mapped element")
+            it = it[1]
+        if isinstance(it, TupleVal):
+            for item in it.items:
+                saved_env = dict(fr.env)
+                self.bind(fr, e["pat"], item)
+                self.eval(fr, e["body"])
+            return UNIT
         if not isinstance(it, PathVal):
             raise Unsupported("for loop over %r" % (it,))
         w0 = self.written
         t0 = len(self.trace)
         self.written = Poly()
         saved = dict(fr.env)
-        self.bind(fr, e["pat"], PathVal(("$it",)))
+        self.bind(fr, e["pat"], elem)
         # integer accumulators updated in the body (`total += 3 + filter.len()`): run the body with the
         # accumulator at a fresh base value; the increment must not depend on the base
         assigned = set()
@@ -813,6 +870,8 @@ class Interp:
             return UNIT
         tr = fn.get("trait") or ""
         if tr.endswith("types::Encodable") and name in ("encode", "encode_len"):
+            if fn.get("self_ty") in getattr(self, "tymap", {}):
+                fn = dict(fn, self_ty=self.tymap[fn["self_ty"]])       # `properties: &P` inside a generic helper
             recv = self.eval(fr, args[0])
             if not isinstance(recv, PathVal):
                 raise Unsupported("Encodable call on %r" % (recv,))
@@ -850,12 +909,38 @@ class Interp:
             return ("default",)
         if name in _PASS_THROUGH and args and len(args) == 1:
             return self.eval(fr, args[0])
+        if name == "map" and tr.endswith("iterator::Iterator") and len(args) == 2:
+            src = self.eval(fr, args[0])
+            clo = self.eval(fr, args[1])
+            if isinstance(src, (PathVal, TupleVal)):
+                return ("mapped", src, clo)
+        if d.startswith("core::option::Option") and name == "map_or" and len(args) == 3:
+            optv = self.eval(fr, args[0])
+            dflt = self.eval(fr, args[1])
+            f = self.eval(fr, args[2])
+            if isinstance(optv, PathVal):
+                cases = [(Poly.atom(("some", optv.path)), ("some", PathVal(optv.path))), (ind_not(Poly.atom(("some", optv.path))), ("none",))]
+            else:
+                cases = self.opt_cases(optv)
+            if cases is None:
+                raise Unsupported("map_or on %r" % (optv,))
+            tot = Poly()
+            for i, v in cases:
+                if v[0] == "some":
+                    tot = tot + i * as_poly(self.apply_fn(fr, f, [v[1]], args[2]), "map_or closure")
+                else:
+                    tot = tot + i * as_poly(dflt, "map_or default")
+            return tot
         if name == "sum" and tr.endswith("iterator::Iterator") and len(args) == 1:
             return self.eval_sum(fr, args[0])
         if name in ("try_for_each", "for_each") and tr.endswith("iterator::Iterator") and len(args) == 2:
             # `path.iter().try_for_each(|item| { writes })`: the same effect as `for item in &path { writes }`
             src = self.eval(fr, args[0])
             clo = self.eval(fr, args[1])
+            if isinstance(src, TupleVal) and isinstance(clo, tuple) and clo[0] == "closure":
+                for item in src.items:          # a fixed array of values: one application per element, in order
+                    self.apply_fn(fr, clo, [item], args[1])
+                return UNIT
             if isinstance(src, PathVal) and isinstance(clo, tuple) and clo[0] == "closure":
                 f = self.F.body_fn(clo[1])
                 params = [q for q in f["thir"]["params"]]
@@ -889,18 +974,19 @@ class Interp:
         callee = self.F.fns.get(res)
         if callee is not None and fn.get("krate") == self.F.data["crate"]:
             vals = [self.eval(fr, a) for a in args]
-            if res.startswith("common::utils::write_") and len(args) == 2:
-                # one wire item: remember what is written (constant or source expression) and from where
-                t0 = len(self.trace)
-                r = self.run_fn(res, vals)
-                del self.trace[t0:]
-                from tables import const_eval as _ce
-                cv = _ce(args[1])
-                src = vals[1]
-                self.trace.append(("item", name, cv, fmt_path(src.path) if isinstance(src, PathVal) else None,
-                                   pp(strip(args[1]))[:120]))
-                return r
-            return self.run_fn(res, vals)
+            # which concrete types the callee's type parameters stand for at this call (for trait calls inside generic helpers)
+            tm = {}
+            for q, a in zip([q for q in callee["thir"]["params"]], args):
+                pt = (q.get("ty") or "").replace("&mut ", "").replace("&", "").strip()
+                at = (a.get("ty") or "").replace("&mut ", "").replace("&", "").strip()
+                if pt and at and pt.isidentifier() and len(pt) <= 3 and pt != at:
+                    tm[pt] = getattr(self, "tymap", {}).get(at, at)
+            old_tm = getattr(self, "tymap", {})
+            self.tymap = tm
+            try:
+                return self._inline_local(fr, e, res, name, args, vals)
+            finally:
+                self.tymap = old_tm
         # pure foreign helpers with no writer argument
         for a in args:
             self.eval_quiet(fr, a)
@@ -908,9 +994,78 @@ class Interp:
             raise Unsupported("unknown callee %s takes the writer" % res)
         return Opaque("call %s" % res)
 
+    def _inline_local(self, fr, e, res, name, args, vals):
+        if True:
+            fn = e["fn"]
+            if res.startswith("common::utils::write_") and len(args) == 2:
+                # one wire item: remember what is written (constant or source expression) and from where.
+                # The primitives' effects are the facts established by T-prims (evaluated), not re-derived from their bodies:
+                # write_u8 / write_u16 / write_u32 write 1 / 2 / 4 bytes, write_bytes writes 2 + len(data).
+                fixed = {"write_u8": 1, "write_u16": 2, "write_u32": 4}.get(name)
+                if fixed is not None:
+                    self.written = self.written + Poly.const(fixed)
+                    r = UNIT
+                elif name == "write_bytes":
+                    self.written = self.written + Poly.const(2) + self.length_of(fr, args[1])
+                    r = UNIT
+                else:
+                    t0 = len(self.trace)
+                    r = self.run_fn(res, vals)
+                    del self.trace[t0:]
+                from tables import const_eval as _ce
+                cv = _ce(args[1])
+                if cv is None and isinstance(vals[1], tuple) and len(vals[1]) == 3 and vals[1][0] == "variant":
+                    # `id as u8` where `id` is a parameter of a helper bound to an enum constant at this call
+                    a_ = self.F.adts.get(vals[1][2])
+                    if a_ is not None:
+                        for vv in a_["variants"]:
+                            if vv["name"] == vals[1][1]:
+                                cv = vv.get("discr")
+                src = vals[1]
+                self.trace.append(("item", name, cv, fmt_path(src.path) if isinstance(src, PathVal) else None,
+                                   pp(strip(args[1]))[:120]))
+                return r
+            return self.run_fn(res, vals)
+
     def mentions_writer(self, fr, a):
         a = strip(a)
         return a.get("k") == "Var" and a["var"]["name"] in ("writer", "buf") and "Write" in (a.get("ty") or "")
+
+    def apply_fn(self, fr, f, vals, node=None):
+        """Apply a closure value (with its captured frame) or a function item to argument values, in the current mode."""
+        if isinstance(f, tuple) and f and f[0] == "closure":
+            cf = self.F.body_fn(f[1])
+            params = [q for q in cf["thir"]["params"]]
+            if cf["kind"] == "Closure" and params and params[0].get("pat") is None:
+                params = params[1:]
+            if len(params) != len(vals):
+                raise Unsupported("closure arity")
+            cfr = Frame()
+            cfr.env = dict(f[2].env)
+            for q, v in zip(params, vals):
+                if q.get("pat") is not None:
+                    self.bind(cfr, q["pat"], v)
+            self.depth += 1
+            try:
+                return self.eval(cfr, nbody(self.F, f[1]))
+            finally:
+                self.depth -= 1
+        if isinstance(f, tuple) and f and f[0] == "fnitem":
+            fn = f[1]
+            fake = {"k": "Call", "fn": fn, "args": [{"k": "__val", "v": v, "ty": None} for v in vals], "ty": fn.get("sig_out")}
+            return self.e_Call(fr, fake)
+        raise Unsupported("cannot apply %r" % (f,))
+
+    def e_Array(self, fr, e):
+        return TupleVal([self.eval(fr, x) for x in e["items"]])
+
+    def e___val(self, fr, e):
+        return e["v"]
+
+    def e_Zst(self, fr, e):
+        if e.get("fn"):
+            return ("fnitem", e["fn"])
+        return Opaque("zst")
 
     def eval_sum(self, fr, e):
         """Iterator::sum(Iterator::map(<iter over path>, closure))"""
@@ -918,6 +1073,11 @@ class Interp:
         if e.get("k") == "Call" and e["fn"].get("name") == "map" and len(e["args"]) == 2:
             src = self.eval(fr, e["args"][0])
             clo = self.eval(fr, e["args"][1])
+            if isinstance(src, TupleVal) and isinstance(clo, tuple) and clo[0] == "closure":
+                tot = Poly()
+                for item in src.items:
+                    tot = tot + as_poly(self.apply_fn(fr, clo, [item], e["args"][1]), "closure body")
+                return tot
             if isinstance(src, PathVal) and isinstance(clo, tuple) and clo[0] == "closure":
                 sub = Interp(self.F, "value")
                 sub.depth = self.depth
